@@ -245,6 +245,41 @@ def check(run):
         if run.too_many():
             break
 
+    # two decompressions in flight on the one compressor object that asdf keeps per process: the chunk source of the outer
+    # stream runs a complete decompression of another stream between two of its chunks (both split inside frames)
+    multi = [S for S in streams if len(S['stream']) > 40 and S['nel'] > 0]
+    for a in range(min(len(multi), 30 if run.quick else 400)):
+        X, Y = multi[a], multi[(a * 7 + 3) % len(multi)]
+        for fx in (0.3, 0.55, 0.9):
+            cx = sorted({max(1, int(len(X['stream']) * fx) - 2), max(2, int(len(X['stream']) * fx) + 3)})
+            cy = [max(1, len(Y['stream']) // 2 - 1), max(2, len(Y['stream']) // 2 + 2)]
+            inner = {}
+
+            def chunks_x():
+                parts = split(X['stream'], cx)
+                for i, c in enumerate(parts):
+                    if i == 1:
+                        ob = np.zeros(len(Y['payload']), dtype=np.uint8)
+                        try:
+                            inner['ret'] = comp.decompress(iter(split(Y['stream'], cy)), ob.data)
+                            inner['ok'] = bytes(ob) == Y['payload']
+                        except Exception as e:  # noqa
+                            inner['err'] = f'{type(e).__name__}: {e}'[:200]
+                    yield c
+
+            ob = np.zeros(len(X['payload']), dtype=np.uint8)
+            run.ev()
+            run.count('reentrant_decompressions')
+            desc = dict(outer_stream=X['sid'], inner_stream=Y['sid'], outer_cuts=cx, inner_cuts=cy)
+            try:
+                ret = comp.decompress(chunks_x(), ob.data)
+            except Exception as e:
+                run.violation('chunking-interleaved-' + type(e).__name__, dict(error=f'{type(e).__name__}: {e}'[:200], **desc))
+                continue
+            run.nt(('reentrant', X['sid'], Y['sid'], fx))
+            if inner.get('err') or not inner.get('ok') or inner.get('ret') != len(Y['payload']) or ret != len(X['payload']) or bytes(ob) != X['payload']:
+                run.violation('chunking-interleaved-wrong-bytes', dict(inner=inner.get('err') or bool(inner.get('ok')), outer_ok=bool(bytes(ob) == X['payload']), **desc))
+
     if monitoring:
         mon.set_local_events(TOOL, code, 0)
         mon.register_callback(TOOL, mon.events.LINE, None)
